@@ -171,23 +171,24 @@ theorem Chan.send_wakes {w w' : World} {o : Nat} {v : Int} {s : ChanSt}
   sendEffect_threads h hs i
 
 /-- A consequence worth spelling out (since the repair of finding F18 the wake-up is `Thread.wake`, which
-touches blocked threads only): a thread that is not `Blocked` is left alone by a send, whatever its pending
-operation; in particular a thread that is `Runnable { unparked: true }` — it holds an unpark token — and whose
-(stale) pending operation is on this channel KEEPS the token when another thread sends into the empty
-channel.  (Before the repair `Thread::set_runnable` overwrote the whole state and the token was lost:
-the old theorem `Chan.send_wake_clears_unpark_token`.) -/
+touches blocked threads only, and since the repair of findings F5/F6 the unpark token is a field of its own,
+`Thread.token`): a thread that is not `Blocked` is left alone by a send, whatever its pending operation; and
+NO thread's unpark token is changed by a send — neither of a thread that is left alone nor of a blocked
+receiver that is woken (it may have been unparked while blocked in `recv`): its next `park` still returns at
+once.  (Before the repairs `Thread::set_runnable` overwrote the whole state and the token was lost: the old
+theorem `Chan.send_wake_clears_unpark_token`.) -/
 theorem Chan.send_wake_keeps_unpark_token {w w' : World} {o : Nat} {v : Int} {s : ChanSt}
     (h : w.getChan o = .ok s) (hs : w.sendEffect o v = .ok w') (i : Nat) :
     ((w.ths.get i).state ≠ .blocked → w'.ths.get i = w.ths.get i) ∧
-    ((w.ths.get i).state = .runnable true → (w'.ths.get i).state = .runnable true) := by
-  have key : (w.ths.get i).state ≠ .blocked → w'.ths.get i = w.ths.get i := by
-    intro hb
-    rw [Chan.send_wakes h hs i]
-    split
+    (w'.ths.get i).token = (w.ths.get i).token := by
+  rw [Chan.send_wakes h hs i]
+  refine ⟨fun hb => ?_, ?_⟩
+  · split
     · simp [Thread.wake, Thread.isBlocked, hb]
     · rfl
-  refine ⟨key, fun hst => ?_⟩
-  rw [key (by rw [hst]; simp), hst]
+  · split
+    · unfold Thread.wake; split <;> rfl
+    · rfl
 
 /-- **C09.3 (block).**  After a successful receive, every OTHER thread `i`'s entry is: `Blocked`
 if the channel became empty (`msg_cnt` was 1) and `i`'s pending operation is a `MsgRecv` on this
